@@ -7,3 +7,26 @@ const (
 	sentinel32 = int32(0x5e5e5e5e)
 	sentinel8  = byte(0x5e)
 )
+
+// byteRanges records where the arena's []byte inputs live, so that a STRING
+// result that aliases one of them can be recognised: a Go string is immutable
+// by contract; one that shares memory with a caller-owned []byte changes when
+// the caller reuses its buffer, i.e. the result is not a value of the arguments.
+type byteRanges struct{ lo, hi []uintptr }
+
+func (b *byteRanges) add(lo, n uintptr) {
+	if n == 0 {
+		return
+	}
+	b.lo = append(b.lo, lo)
+	b.hi = append(b.hi, lo+n)
+}
+
+func (b *byteRanges) contains(p uintptr) bool {
+	for i := range b.lo {
+		if p >= b.lo[i] && p < b.hi[i] {
+			return true
+		}
+	}
+	return false
+}
